@@ -10,8 +10,8 @@ func init() {
 		Technique:   "fault-schedule property-based testing (rapid + testing/synctest) against an append-log reference model, independent SSE parser",
 		DesignRef:   "DESIGN.md section 3, C08",
 		Runs: []run{
-			{Test: "TestC08_Seq", Quick: 1500, Thorough: 20000},
-			{Test: "TestC08_Race", Quick: 800, Thorough: 8000, Race: true},
+			{Test: "TestC08_Seq", Quick: 1500, Thorough: 60000},
+			{Test: "TestC08_Race", Quick: 800, Thorough: 24000, Race: true},
 		},
 	})
 }
